@@ -8,6 +8,7 @@ import (
 
 	"github.com/bio-routing/bio-rd/protocols/bgp/server"
 
+	"verifharness/internal/memconn"
 	"verifharness/internal/sessgen"
 	"verifharness/internal/speaker"
 	"verifharness/internal/wire"
@@ -281,4 +282,38 @@ func NotifText(s *speaker.Session) string {
 		return "none"
 	}
 	return strings.Join(out, ",")
+}
+
+// Sync is speaker.Session.Sync for situations in which the FSM may END while the harness waits (it was
+// told to cease, by the hook or by the collision handling of another FSM of the peer). The speaker's
+// Sync offers the barrier once with a long timeout as soon as the reader is idle; an FSM that ends a
+// moment later never takes it and the call waits out the whole watchdog. Here the barrier is offered
+// in short slices, looking at the connection in between: Barrier == false together with Closed means
+// the FSM is gone.
+func Sync(s *speaker.Session) speaker.SyncResult {
+	var r speaker.SyncResult
+	switch s.Conn.WaitReaderIdle(speaker.StepTimeout) {
+	case memconn.ReaderIdle:
+		r.Idle = true
+	case memconn.SUTClosed:
+		r.Closed = true
+	default:
+		return r
+	}
+	deadline := time.Now().Add(speaker.StepTimeout)
+	for {
+		if s.Conn.IsClosed() {
+			r.Closed = true
+			r.Barrier = s.Barrier(speaker.CeaseGrace)
+			return r
+		}
+		if s.Barrier(100 * time.Millisecond) {
+			r.Barrier = true
+			r.Closed = s.Conn.IsClosed()
+			return r
+		}
+		if time.Now().After(deadline) {
+			return r
+		}
+	}
 }
